@@ -31,15 +31,30 @@ CANCELLED = -20
 FAMILIES = ["from_future", "to_future", "run", "to_async", "from_callback"]
 # payloads: falsy values head the pool; None and "" travel to Coq under reserved ids (the models are parametric in
 # the element, so any injective encoding is sound)
-NONE_ID, EMPTY_ID = -100, -101
+NONE_ID, EMPTY_ID, EXCVAL_ID = -100, -101, -102
 FALSY = [None, 0, ""]
-POOL = FALSY + list(range(1, 10))
+# a result VALUE that happens to be an exception instance (a job returning the exception it caught): still a value
+EXC_VALUE = ValueError("an exception object delivered as a value")
+EXC_MARK = "__an_exception_instance_as_value__"      # how EXC_VALUE is written in (JSON) cases
+POOL = FALSY + list(range(1, 10)) + [EXC_MARK]
+
+
+def real(v):
+    """case value -> the object handed to the library"""
+    return EXC_VALUE if isinstance(v, str) and v == EXC_MARK else v
+
+
+def unreal(v):
+    """object received from the library -> case value"""
+    return EXC_MARK if v is EXC_VALUE else v
 FALSY_ERR = 14                          # UserError whose truth value is False (len() == 0)
 NOTES = {"to_future_default_deprecation_warnings": 0, "run_blocked_observed": 0, "run_thread_timeouts": 0,
          "run_sched_forwarded": 0}
 
 
 def enc(v):
+    if v is EXC_VALUE or (isinstance(v, str) and v == EXC_MARK):
+        return EXCVAL_ID
     return NONE_ID if v is None else (EMPTY_ID if v == "" and isinstance(v, str) else v)
 
 
@@ -121,7 +136,7 @@ def fut_state(f):
     e = f.exception()
     if e is not None:
         return ("exn", err_id(e))
-    return ("result", f.result())
+    return ("result", unreal(f.result()))
 
 
 def g_fstate(s):
@@ -139,14 +154,14 @@ def g_nats(l):
     return "[" + "; ".join(f"{x}%nat" for x in l) + "]"
 
 
-def logger(out, tag, val=lambda v: v):
+def logger(out, tag, val=unreal):
     return (lambda v: out.append((tag[0], "N", val(v))), lambda e: out.append((tag[0], "E", err_id(e))),
             lambda: out.append((tag[0], "C", None)))
 
 
 def settle(f, s):
     if s[0] == "result":
-        f.set_result(s[1])
+        f.set_result(real(s[1]))
     elif s[0] == "exn":
         f.set_exception(mkerr(s[1]))
     elif s[0] == "cancelled":
@@ -482,7 +497,7 @@ def run_to_async(c):
         calls.append(list(args))
         if c["r"][0] == "raise":
             raise UserError(c["r"][1])
-        return c["r"][1]
+        return real(c["r"][1])
 
     c.setdefault("args", [0, 0] if c["via"] == "to_async" else [])
 
@@ -545,9 +560,9 @@ def run_to_async_default(c):
         calls.append(list(args))
         if c["r"][0] == "raise":
             raise UserError(c["r"][1])
-        return c["r"][1]
+        return real(c["r"][1])
     obs = rx.start(func) if c["via"] == "start" else rx.to_async(func)(*c["args"])
-    obs.subscribe(lambda v: out.append((0, "N", v)), lambda e: (out.append((0, "E", err_id(e))), done.set()),
+    obs.subscribe(lambda v: out.append((0, "N", unreal(v))), lambda e: (out.append((0, "E", err_id(e))), done.set()),
                   lambda: (out.append((0, "C", None)), done.set()))
     finished = done.wait(30)
     return {"notes": list(out), "calls": len(calls), "received": list(calls), "finished": finished}
